@@ -95,7 +95,14 @@ func TestVerifChildIndex(t *testing.T) {
 		t.Skip("child only")
 	}
 	idxDir := os.Getenv("VERIF_CHILD_IDX")
-	paths, _, err := createAllIndexes(context.Background(), indexes.NetworkMainnet, os.Getenv("VERIF_CHILD_TMP"), carPath, idxDir)
+	ctx := context.Background()
+	if os.Getenv("VERIF_CHILD_CANCEL") != "" {
+		// an interrupted run (SIGINT cancels the CLI context): whatever it does, it must not report success over incomplete indexes
+		c, cancel := context.WithCancel(ctx)
+		cancel()
+		ctx = c
+	}
+	paths, _, err := createAllIndexes(ctx, indexes.NetworkMainnet, os.Getenv("VERIF_CHILD_TMP"), carPath, idxDir)
 	if err != nil {
 		t.Fatalf("createAllIndexes: %v", err)
 	}
@@ -110,6 +117,9 @@ func TestVerifChildIndex(t *testing.T) {
 		t.Fatal(err)
 	}
 }
+
+// vChildEnv: extra environment for the indexing child of the next vBuild calls (fault switches)
+var vChildEnv []string
 
 // vBuild writes the CAR of spec and indexes it in a child process; it does not load an Epoch.
 func vBuild(t testing.TB, spec fixture.EpochSpec, withGsfa bool) (*loaded, error) {
@@ -126,6 +136,7 @@ func vBuild(t testing.TB, spec fixture.EpochSpec, withGsfa bool) (*loaded, error
 	os.MkdirAll(tmp, 0o755)
 	cmd := exec.Command(os.Args[0], "-test.run=^TestVerifChildIndex$", "-test.v")
 	cmd.Env = append(os.Environ(), "VERIF_CHILD_CAR="+carPath, "VERIF_CHILD_IDX="+idxDir, "VERIF_CHILD_TMP="+tmp)
+	cmd.Env = append(cmd.Env, vChildEnv...)
 	if withGsfa {
 		cmd.Env = append(cmd.Env, fmt.Sprintf("VERIF_CHILD_GSFA_EPOCH=%d", spec.Epoch))
 	}
